@@ -309,7 +309,7 @@ class ComplexAngularCentralGaussianTrainer:
             denominator = np.array(N, dtype=np.float64)
         else:
             assert y.ndim == saliency.ndim + 1, (y.shape, saliency.ndim)
-            denominator = np.einsum('...n->...', saliency)[..., None, None]
+            denominator = np.sum(saliency, axis=-1)[..., None, None]
 
         # When the covariance matrix is zero, quadratic_form would also zero.
         # quadratic_form have to be positive
